@@ -82,6 +82,27 @@ Theorem C04_active_wl_member_pays_wl_price : forall vr s e fp w v stage proof al
   s_start s' = s_start s /\ s_whitelist s' = s_whitelist s.
 Proof. exact active_wl_member_pays_wl_price. Qed.
 
+
+(* membership reaches the minter only through the whitelist's answer to this very call.
+   For ANY notion `intended` of who the members are meant to be: if the answer is faithful
+   to it, only intended members mint while the whitelist is active; and if a non-intended
+   buyer does mint in the whitelist phase, then the whitelist answered "member" for that
+   buyer — a stale / wrong answer of the whitelist (the harness keeps its own ledger of
+   intended membership and reports exactly this situation). *)
+Theorem C04_faithful_whitelist_only_members_mint : forall (intended : addr -> Prop) vr s e fp w v stage proof alloc choice s' ms,
+  s_whitelist s = Some w -> wv_active v = true ->
+  (membership_answer vr v proof = Some true -> intended (e_sender e)) ->
+  step vr s e fp (Some v) (OMint stage proof alloc choice) = Ok (s', ms) ->
+  intended (e_sender e).
+Proof. exact faithful_whitelist_only_members_mint. Qed.
+
+Theorem C04_nonmember_mint_blames_whitelist_answer : forall (intended : addr -> Prop) vr s e fp w v stage proof alloc choice s' ms,
+  s_whitelist s = Some w -> wv_active v = true ->
+  step vr s e fp (Some v) (OMint stage proof alloc choice) = Ok (s', ms) ->
+  ~ intended (e_sender e) ->
+  membership_answer vr v proof = Some true /\ ~ intended (e_sender e).
+Proof. exact nonmember_mint_blames_whitelist_answer. Qed.
+
 (* ---- clause 4: when the whitelist is not active the public rules apply: the outcome is
    that of the same call on the state without a whitelist (whatever that call is told
    about whitelists), with the whitelist field put back ---- *)
@@ -330,6 +351,21 @@ Theorem C04_oe_active_wl_member_pays_wl_price : forall vr s e fp w v stage proof
   ~ (exists en, o_end s = Some en /\ en <= e_now e).
 Proof. exact oe_active_wl_member_pays_wl_price. Qed.
 
+
+Theorem C04_oe_faithful_whitelist_only_members_mint : forall (intended : addr -> Prop) vr s e fp w v stage proof alloc s' ms,
+  o_whitelist s = Some w -> wv_active v = true ->
+  (o_membership_answer vr v proof = Some true -> intended (e_sender e)) ->
+  ostep vr s e fp (Some v) (EMint stage proof alloc) = Ok (s', ms) ->
+  intended (e_sender e).
+Proof. exact oe_faithful_whitelist_only_members_mint. Qed.
+
+Theorem C04_oe_nonmember_mint_blames_whitelist_answer : forall (intended : addr -> Prop) vr s e fp w v stage proof alloc s' ms,
+  o_whitelist s = Some w -> wv_active v = true ->
+  ostep vr s e fp (Some v) (EMint stage proof alloc) = Ok (s', ms) ->
+  ~ intended (e_sender e) ->
+  o_membership_answer vr v proof = Some true /\ ~ intended (e_sender e).
+Proof. exact oe_nonmember_mint_blames_whitelist_answer. Qed.
+
 (* when the whitelist is not active the public rules apply *)
 Theorem C04_oe_inactive_wl_public_rules : forall vr s e fp wv wv0 stage proof alloc,
   (o_whitelist s = None \/ exists v, wv = Some v /\ wv_active v = false) ->
@@ -519,6 +555,10 @@ Print Assumptions C04_oe_schedule_frozen_once_started.
 Print Assumptions C04_oe_trace_spelled_out.
 Print Assumptions C04_oe_history_mints_inside_window.
 Print Assumptions C04_oe_after_end_nothing_mints.
+Print Assumptions C04_faithful_whitelist_only_members_mint.
+Print Assumptions C04_nonmember_mint_blames_whitelist_answer.
+Print Assumptions C04_oe_faithful_whitelist_only_members_mint.
+Print Assumptions C04_oe_nonmember_mint_blames_whitelist_answer.
 
 (* ---- the NFT metadata mode (off-chain token_uri / on-chain extension) of an open
    edition does not influence the gates: a call is rejected under one metadata
